@@ -76,6 +76,14 @@ def adversarial(name, p):
         return bytes([ord("[") | 0x80]) + i32(2) + b"r" + i32(0) + b"N"
     if name == "dict-containing-itself":
         return bytes([ord("{") | 0x80]) + b"i\x01\x00\x00\x00" + b"r" + i32(0) + b"0"
+    if name in ("tuple-dag-in-code-consts", "tuple-dag-in-code-names"):
+        depth = max(2, min(n, 60))
+        dag = b"(" + i32(depth) + bytes([ord("(") | 0x80]) + i32(2) + b"NN"
+        for i in range(1, depth):
+            dag += bytes([ord("(") | 0x80]) + i32(2) + b"r" + i32(i - 1) + b"r" + i32(i - 1)
+        if name.endswith("consts"):
+            return code_with_consts(dag, p["v"])
+        return code_with_names(dag, p["v"])
     if name in ("tuple-dag", "tuple-dag-in-set", "tuple-dag-as-dict-key"):
         # level 0 = (N, N); level i = (level i-1, level i-1) by back-reference: 2^depth leaves if walked naively
         depth = max(2, min(n, 60))
@@ -101,6 +109,22 @@ def adversarial(name, p):
     return b"?"
 
 
+def code_with_names(names, v):
+    """a code object whose co_names is the given object (co_consts an empty tuple)"""
+    vt = tuple(int(x) for x in v.split("."))
+    out = b"c"
+    if vt >= (3, 11):
+        out += i32(0) * 3 + i32(1) + i32(64)
+    elif vt >= (3, 8):
+        out += i32(0) * 4 + i32(1) + i32(64)
+    elif vt >= (3, 0):
+        out += i32(0) * 3 + i32(1) + i32(64)
+    else:
+        out += i32(0) * 2 + i32(1) + i32(64)
+    out += b"s" + i32(4) + b"d\x00S\x00" + b"(" + i32(0) + names
+    return out + b"N" * 12
+
+
 def code_with_consts(consts, v):
     vt = tuple(int(x) for x in v.split("."))
     out = b"c"
@@ -121,7 +145,7 @@ ADV_NAMES = ["tuple-count-lies", "list-count-lies", "set-count-lies", "many-tiny
              "self-reference-in-set", "string-length-lies", "unicode-length-lies", "long-digit-count-lies", "unknown-type-codes",
              "dict-no-terminator", "code-with-garbage-fields", "stringref-out-of-range", "unhashable-in-set",
              "null-in-odd-places", "float-text-garbage", "negative-length-in-big-container", "negative-length-string", "list-containing-itself", "dict-containing-itself", "tuple-dag",
-             "tuple-dag-in-set", "tuple-dag-as-dict-key"]
+             "tuple-dag-in-set", "tuple-dag-as-dict-key", "tuple-dag-in-code-consts", "tuple-dag-in-code-names"]
 
 
 class C11:
